@@ -48,8 +48,8 @@ def generate(rng, tier):
     ops = []
     for _ in range(rng.randint(5, 14)):
         t = rng.choices(['call', 'method', 'setitem', 'legacy', 'wrap',
-                         'legacy_reduce', 'asarray_out'],
-                        [6, 4, 2, 2, 1, 1, 1])[0]
+                         'legacy_reduce', 'asarray_out', 'view_write'],
+                        [6, 4, 2, 2, 1, 1, 1, 1])[0]
         op = {'t': t}
         h = lambda: [rng.randrange(nst), rng.choice(HANDLES)]
         if t in ('call', 'legacy'):
@@ -120,6 +120,14 @@ def generate(rng, tier):
                        'order': rng.choice(['C', 'F'])})
         elif t == 'wrap':
             op['s'] = rng.randrange(nst)
+        elif t == 'view_write':
+            # x[index] is documented as a writable view (except for lists):
+            # a write through it must land in the storage
+            op.update({'h': [rng.randrange(nst), rng.choice(['elem', 'tens'])],
+                       'idx': rng.choice(['slice', 'tail', 'first', 'ellipsis',
+                                          'col']),
+                       'val': rng.choice([0, 1.5, -2, 7]),
+                       'how': rng.choice(['setitem', 'ufunc'])})
         op['fill'] = rng.choice(GARBAGE)
         ops.append(op)
     if kind == 'power':
@@ -265,6 +273,8 @@ class Run(object):
             return self.method(op)
         if t == 'legacy_reduce':
             return self.legacy_reduce(op)
+        if t == 'view_write':
+            return self.view_write(op)
         if t == 'asarray_out':
             return self.asarray_out(op)
         raise HarnessError(t)
@@ -315,6 +325,54 @@ class Run(object):
                           op['idx'], val, hk, type(e).__name__, str(e)[:120]))
         self.ctx.event('setitem', s, hk, op['idx'])
         self.ctx.covered('setitem', hk, op['idx'], self.kind,
+                         str(self.S.dtype))
+
+    def view_write(self, op):
+        s, hk = op['h']
+        st = self.stores[s]
+        nd = st.model.ndim
+        idx = {'slice': slice(0, 2), 'tail': slice(1, None), 'first': 0,
+               'ellipsis': Ellipsis,
+               'col': (slice(None), slice(0, 1)) if nd >= 2 else slice(0, 1)
+               }[op['idx']]
+        try:
+            mv = st.model[idx]
+        except Exception:
+            raise Reject('numpy rejects')
+        if not isinstance(mv, np.ndarray) or mv.ndim == 0 or mv.size == 0:
+            raise Reject('scalar result')
+        val = op['val']
+        if np.dtype(self.S.dtype).kind in 'iub':
+            val = int(val)
+        h = st.handle(hk)
+        try:
+            v = h[idx]
+        except Exception as e:
+            self.viol('getitem-raise', self.kind + '/' + hk,
+                      'h[{}] raised {}: {}'.format(op['idx'],
+                                                   type(e).__name__,
+                                                   str(e)[:120]))
+        va = np.asarray(v)
+        if va.shape != mv.shape or _bits(va) != _bits(mv):
+            self.viol('getitem-value', self.kind + '/' + hk,
+                      'h[{}] differs from the array indexed the same way'
+                      ''.format(op['idx']))
+        try:
+            if op['how'] == 'setitem':
+                mv[...] = val
+                v[...] = val
+            else:
+                with np.errstate(all='ignore'):
+                    np.add(mv, val, out=mv, casting='unsafe')
+                    np.add(v, val, out=v, casting='unsafe')
+        except Exception as e:
+            self.viol('view-write-raise', self.kind + '/' + hk,
+                      'writing through h[{}] raised {}: {}'.format(
+                          op['idx'], type(e).__name__, str(e)[:120]))
+        # coherence (checked by the caller) now requires the write to have
+        # landed in the storage
+        self.ctx.event('view_write', s, hk, op['idx'], op['how'])
+        self.ctx.covered('view_write', hk, op['idx'], op['how'], self.kind,
                          str(self.S.dtype))
 
     def wrap(self, op):
